@@ -16,7 +16,7 @@ DECIDES = ('every multi-direction subscript of a canonical flat array in the pac
            'extract_curves, extract_surfaces (3 planes) and transpose induce a single-valued map target direction -> source direction through '
            'net positions, sizes, degrees and knot vectors (AX4) and their final flat list has the declared extents in canonical order (LY3); '
            'sizes are passed to set_ctrlpts in (u, v, w) order everywhere (LY3p); flip is the full reversal applied to the stored view (FL1); '
-           'sweep_vector passes (input, translate) in this order along a direction whose degree admits two sections (AG8).')
+           'sweep_vector passes (input, translate) in this order along a direction whose degree admits two sections (AG8). the 2-D grid view is filled with the point lists of the object\'s own flat array - nothing that may alias an argument is stored in either view (ES1, may-alias analysis), so ctrlpts2d[u][v] and ctrlpts[v + Sv*u] stay one object.')
 NOT_DECIDED = 'that reconstruction evaluates identically also needs C01; nothing structural is left out on the listed functions. Functions the interpreter cannot resolve are reported as notes, never as passes of a claimed obligation.'
 TECHNIQUE = 'abstract interpretation of list layouts over symbolic sizes (polynomial extents, direction labels), stride rule, axis-map coherence'
 
@@ -49,10 +49,13 @@ def check(m, run):
     ld.construct_rules(m, run, summ)
     ld.extract_rules(m, run, summ)
     grid_view(m, run, summ)
+    from . import c09
+    c09.no_escape(m, run)     # the 2-D grid view holds the very point lists of the flat array (never the caller's): edits through one view reach the other
     transpose_rule(m, run, summ)
     flip_rule(m, run)
     sweep_rule(m, run)
     flip2d_rule(m, run)
+    df1(m, run)
     run.floor('LY1.index-matches-layout', 40, 'index reads checked by the LAYOUT interpreter')
     run.floor('LY3.list-matches-declared-sizes', 24, 'set_ctrlpts / constructed nets checked by the LAYOUT interpreter')
     run.floor('AX4.axis-map-single-valued', 20, 'construct (2 + 3 directions), extract (3 planes + 2), transpose')
@@ -170,6 +173,47 @@ def sweep_rule(m, run):
     tr = [c for c in walk_no_nested(fi.node) if isinstance(c, ast.Call) and norm(c.func).endswith('point_translate')]
     okt = len(tr) == 1 and norm(tr[0].args[1]) == params_of(fi.node)[1]
     run.ob('AG8.sweep', fi.key + ' :: translate', okt, 'second section is the input translated by vec' if okt else 'control points of the second section are not point_translate(p, vec)', site(fi))
+
+
+def df1(m, run):
+    """DF1: an optional size (parameter with default 0) that is used as a loop extent is, on every path to that use, either re-computed
+    from the data or known to be positive: each of the two sizes of flip_ctrlpts2d may be omitted on its own"""
+    from ..cfg import CFG
+    from ..poly import to_poly, NotPoly, Poly
+    fi = m.func('compatibility.flip_ctrlpts2d')
+    a = fi.node.args
+    ps = [x.arg for x in a.args]
+    dflt = dict(zip(ps[len(ps) - len(a.defaults):], a.defaults))
+    opt = [p_ for p_, d in dflt.items() if isinstance(d, ast.Constant) and d.value == 0 and not isinstance(d.value, bool)]
+    if len(opt) < 2:
+        raise AnalysisError('flip_ctrlpts2d: optional size parameters not found')
+    cfg = CFG(fi.node)
+    for p_ in opt:
+        redefs = [cfg.of[n] for n in walk_no_nested(fi.node) if isinstance(n, ast.Assign) and any(isinstance(t, ast.Name) and t.id == p_ for t in n.targets) and n in cfg.of]
+        uses = [n for n in walk_no_nested(fi.node) if isinstance(n, ast.Call) and norm(n.func) == 'range' and any(isinstance(x, ast.Name) and x.id == p_ for x in ast.walk(n))]
+        if not uses:
+            continue
+        un = cfg.node_of(uses[0])
+        reach_unredefined = un in cfg.reach_from(cfg.entry, skip_nodes=redefs)
+        positive = False
+        if reach_unredefined:
+            for e, pol in cfg.facts_at(un, skip_nodes=redefs):
+                if isinstance(e, ast.Compare) and len(e.ops) == 1:
+                    try:
+                        d = to_poly(e.left) - to_poly(e.comparators[0])
+                    except NotPoly:
+                        continue
+                    P_ = Poly.atom(p_)
+                    op = type(e.ops[0])
+                    # not (p <= 0) | not (p < 1) | p > 0 | p >= 1 | not (0 >= p) ...
+                    if (d == P_ and ((op is ast.LtE and not pol) or (op is ast.Gt and pol))) or (d == P_ - 1 and ((op is ast.Lt and not pol) or (op is ast.GtE and pol))) \
+                            or (d == -P_ and ((op is ast.GtE and not pol) or (op is ast.Lt and pol))):
+                        positive = True
+        ok = (not reach_unredefined) or positive
+        run.ob('DF1.omitted-size-is-recomputed', '%s :: %s' % (fi.key, p_), ok,
+               'on every path to its use `%s` is either given (> 0) or recomputed from the array' % p_ if ok else
+               '`%s` can reach `%s` with its default 0 when only the other size is supplied: the guard that recomputes the sizes must fire when EITHER is missing'
+               % (p_, norm(uses[0])), site(fi, uses[0]))
 
 
 def flip2d_rule(m, run):
